@@ -10,6 +10,10 @@ def units(tier):
         us.append(Unit(P.Seek, {'whence': w}))
     for m in ('read', 'readall', 'readinto', 'seek', 'tell', 'length'):
         us.append(Unit(P.Closed, {'method': m}))
+    # whole images: every file of a written image read back through get_file_from_iso_fp on the opened image (symbolic contents)
+    from contracts import fidelity as F
+    for s in ['plain-small', 'hard-links', 'many-files', 'joliet-unicode'] + F.random_names(tier, ['plain', 'rr112-joliet-xa'], 1, 10):
+        us.append(Unit(F.Reopened, {'script': s, 'edit': False}))
     us += [Unit(P.CopyDataYield), Unit(P.InodeOpen, {'location': 1}), Unit(P.InodeOpen, {'location': 2}), Unit(P.InodeOpen, {'location': 2, 'managed': True})]
     return us
 
